@@ -162,11 +162,25 @@ def _accessors(ck: Checker) -> None:
 
     final = [n for n in g.nodes.values() if n.kind == "stmt" and any(isinstance(x, ast.Subscript) and isinstance(x.ctx, ast.Load) and norm(x.value) == "self._trie" for e in node_exprs(n) for x in walk_expr(e))]
     ck.floor("C17.accessors", len(final), 1, "miss-path return in DataIndex.__getitem__")
+    # locals by role: the longest-prefix lookup (nothing to load when there is none) and the direct trie hit
+    def _bound_to(*meths):
+        return {a_.targets[0].id for a_ in walk_own(gi.node) if isinstance(a_, ast.Assign) and len(a_.targets) == 1 and isinstance(a_.targets[0], ast.Name)
+                and isinstance(a_.value, ast.Call) and is_method_call(a_.value, *meths) and norm(a_.value.func.value) == "self._trie"}
+
+    lp_names = _bound_to("longest_prefix") or {"lprefix"}
+    hit_names = _bound_to("get") or {"item"}
     for n in final:
         def skip(a, lab, b):
-            return lab == "exc" or (a.kind == "test" and isinstance(a.ast, ast.Compare) and "lprefix" in norm(a.ast) and lab == "F")
+            if lab == "exc":
+                return True
+            if a.kind != "test" or lab != "F":
+                return False
+            e = a.ast
+            if isinstance(e, ast.Name):
+                return e.id in lp_names
+            return isinstance(e, ast.Compare) and len(e.ops) == 1 and isinstance(e.ops[0], ast.IsNot) and norm(e.left) in lp_names and norm(e.comparators[0]) == "None"
 
-        r = g.reach([g.entry], skip_node=lambda x: x.id in lds, skip_edge=lambda a, l, b: skip(a, l, b) or (a.kind == "test" and norm(a.ast) == "item" and l == "T"))
+        r = g.reach([g.entry], skip_node=lambda x: x.id in lds, skip_edge=lambda a, l, b: skip(a, l, b) or (a.kind == "test" and norm(a.ast) in hit_names and l == "T"))
         ck.require(n.id not in r, "C17.accessors", gi, n, "a lookup miss loads the longest-prefix directory before retrying", "a lookup miss can retry the trie without loading the containing directory")
     it = prog.func("index.index", "DataIndex.iteritems")
     g = ck.cfg(it)
@@ -181,7 +195,11 @@ def _accessors(ck: Checker) -> None:
     pt = [t for t in g.nodes.values() if t.kind == "test" and norm(t.ast) == "prefix" and not t.loops]
     okp = False
     # the local holding the longest-prefix lookup (nothing to load when there is none)
-    lpn = {"item"} | {norm(a_.targets[0]) for a_ in walk_own(it.node) if isinstance(a_, ast.Assign) and len(a_.targets) == 1 and isinstance(a_.value, ast.Call) and is_method_call(a_.value, "longest_prefix")}
+    def _arms(v):
+        return _arms(v.body) + _arms(v.orelse) if isinstance(v, ast.IfExp) else [v]
+
+    lpn = {"item"} | {norm(a_.targets[0]) for a_ in walk_own(it.node) if isinstance(a_, ast.Assign) and len(a_.targets) == 1
+                      and any(isinstance(v, ast.Call) and is_method_call(v, "longest_prefix") for v in _arms(a_.value))}
     for t in pt:
         r = g.reach([d for lab, d in t.succ if lab == "T"], skip_node=lambda x: x.id in lds, skip_edge=lambda a, l, b: l == "exc" or (a.kind == "test" and norm(a.ast) in lpn and l == "F"))
         okp = h.id not in r
